@@ -1,7 +1,92 @@
 import PprofVerif.Base.Tok
-/- Driver operations for C13. -/
+import PprofVerif.Model.Elf
+import PprofVerif.Spec.ElfLoader
+/- Driver operations for C13 (ELF address translation, nm lookup). -/
 namespace Driver.C13
-open PV
+open PV PV.Elf
 
-def ops : List (String × (List String → String)) := []
+def rdHdr : Rd ProgHeader := do
+  let t ← Rd.nat; let fl ← Rd.nat; let o ← Rd.nat; let v ← Rd.nat; let fs ← Rd.nat; let ms ← Rd.nat
+  pure ⟨t, fl, o, v, fs, ms⟩
+
+def rdSym : Rd Sym := do
+  let a ← Rd.nat; let s ← Rd.nat; let d ← Rd.bool
+  pure ⟨a, s, d⟩
+
+def outNat : Outcome Nat → String
+  | .ok n => "ok " ++ toString n
+  | .err _ => "err"
+  | .panic _ => "panic"
+
+/-- positions (in `l`) of the elements kept by `p`, as "k i1 … ik". -/
+def keptIdx {α} (p : α → Bool) (l : List α) : String :=
+  let rec go : List α → Nat → List Nat
+    | [], _ => []
+    | a :: as, i => if p a then i :: go as (i + 1) else go as (i + 1)
+  let ix := go l 0
+  " ".intercalate (toString ix.length :: ix.map toString)
+
+def idxOf (l : List ProgHeader) (h : ProgHeader) : String :=
+  match l.findIdx? (· == h) with
+  | some i => toString i
+  | none => "?"
+
+def ops : List (String × (List String → String)) := [
+  ("elf.getbase", fun ts =>
+    match Rd.run (do
+        let ty ← Rd.nat; let seg ← Rd.opt rdHdr; let st ← Rd.opt Rd.nat
+        let s ← Rd.nat; let l ← Rd.nat; let o ← Rd.nat
+        pure (getBase ty seg st s l o)) ts with
+    | none => "bad-op"
+    | some r => outNat r),
+  ("elf.phfm", fun ts =>
+    match Rd.run (do
+        let hs ← Rd.list rdHdr; let mo ← Rd.nat; let ms ← Rd.nat
+        pure (keptIdx (phfmKeep mo ms) hs)) ts with
+    | none => "bad-op"
+    | some r => r),
+  ("elf.hffo", fun ts =>
+    match Rd.run (do
+        let hs ← Rd.list rdHdr; let fo ← Rd.nat
+        pure (match headerForFileOffset hs fo with
+          | .ok h => "ok " ++ idxOf hs h
+          | .err _ => "err"
+          | .panic _ => "panic")) ts with
+    | none => "bad-op"
+    | some r => r),
+  ("elf.findtext", fun ts =>
+    match Rd.run (do
+        let as ← Rd.list Rd.nat; let hs ← Rd.list rdHdr
+        pure (match findTextProgHeader as hs with
+          | some h => "1 " ++ idxOf hs h
+          | none => "0")) ts with
+    | none => "bad-op"
+    | some r => r),
+  -- elf.objaddr etype progs textAddrs kernelOffset? start limit offset addr
+  ("elf.objaddr", fun ts =>
+    match Rd.run (do
+        let ty ← Rd.nat; let hs ← Rd.list rdHdr; let as ← Rd.list Rd.nat; let ko ← Rd.opt Rd.nat
+        let s ← Rd.nat; let l ← Rd.nat; let o ← Rd.nat; let x ← Rd.nat
+        pure (objAddr ⟨s, l, o, ko⟩ ⟨ty, hs, as⟩ x)) ts with
+    | none => "bad-op"
+    | some r => outNat r),
+  -- elf.layout page hdr B v0 v1 start limit offset  →  1 iff Spec.LoaderLayout holds
+  ("elf.layout", fun ts =>
+    match Rd.run (do
+        let pg ← Rd.nat; let h ← rdHdr; let b ← Rd.nat; let v0 ← Rd.nat; let v1 ← Rd.nat
+        let s ← Rd.nat; let l ← Rd.nat; let o ← Rd.nat
+        pure (layoutB pg h b v0 v1 ⟨s, l, o, none⟩)) ts with
+    | none => "bad-op"
+    | some r => if r then "1" else "0"),
+  -- nm.addrinfo base n (addr size isData)* x
+  ("nm.addrinfo", fun ts =>
+    match Rd.run (do
+        let b ← Rd.nat; let ss ← Rd.list rdSym; let x ← Rd.nat
+        pure (addrInfo (relocate b ss) x)) ts with
+    | none => "bad-op"
+    | some (.ok none) => "ok 0"
+    | some (.ok (some i)) => "ok 1 " ++ toString i
+    | some (.err _) => "err"
+    | some (.panic _) => "panic")
+]
 end Driver.C13
